@@ -26,7 +26,7 @@ import (
 
 func init() {
 	tours["slots"] = []func(*core.Result, *core.RNG) (*sim, error){slotsTour}
-	tours["weeks"] = []func(*core.Result, *core.RNG) (*sim, error){weeksTour}
+	tours["weeks"] = []func(*core.Result, *core.RNG) (*sim, error){weeksTour, manyWeeksTour}
 	tours["restart"] = []func(*core.Result, *core.RNG) (*sim, error){restartTour, restartFaultTour}
 	tours["equip"] = []func(*core.Result, *core.RNG) (*sim, error){equipTour, keyReuseTour, keyReuseBanTour, keyReuseAfterBanTour}
 	tours["register"] = []func(*core.Result, *core.RNG) (*sim, error){registerTour, registerRaceTour, damagedKeyTour, zeroKeyTour, archiveBeforeRegistrationTour}
@@ -199,6 +199,60 @@ func weeksTour(res *core.Result, r *core.RNG) (*sim, error) {
 	s.stats("archived", false)
 	s.stats("live1", false)
 	return s, nil
+}
+
+// more than a hundred archived weeks (the server was down for two years: start-up catch-up), a restart,
+// and every archived week -- the oldest ones included -- is served as before
+func manyWeeksTour(res *core.Result, r *core.RNG) (*sim, error) {
+	s, err := newSim(res, r, "weeks-many", 2016*108+10, false)
+	if err != nil {
+		return nil, err
+	}
+	res.Count("weeks.many")
+	s.register("valid")
+	d := s.addDevice(1000)
+	if d != nil {
+		s.send(d, s.w.Now, 420)
+	}
+	ask := func() bool {
+		sn := s.w.S.VerifSnapshot()
+		for _, k := range []int{0, 1, 2, 3, 50, len(sn.History) - 2, len(sn.History) - 1} {
+			if k < 0 || k >= len(sn.History) {
+				continue
+			}
+			tso := uint32(k) * 2016
+			ads, rr := s.w.Stats(tso, false, true, "archived")
+			if rr.Panicked || rr.Err != nil {
+				s.fail(fmt.Sprintf("the statistics request for archived week %d (of %d) panics the handler", tso, len(sn.History)), "panic-stats")
+				return false
+			}
+			if ads == nil || ads.TimeslotOffset != tso {
+				s.fail(fmt.Sprintf("archived week %d (of %d archived weeks) is not served", tso, len(sn.History)), "c03-refused-valid-week")
+				return false
+			}
+		}
+		return true
+	}
+	if !ask() {
+		s.abandon()
+		return s, nil
+	}
+	s.restart(s.w.Now)
+	if !ask() {
+		s.abandon() // a handler that panicked may have kept the server lock
+		return s, nil
+	}
+	s.stats("live1", false)
+	return s, nil
+}
+
+// abandon gives up on a world whose server may be wedged: the history so far is recorded, the server is
+// closed in the background (it may never finish) and the tour ends.
+func (s *sim) abandon() {
+	s.alive = false
+	s.closedTerm = s.w.CoqCase()
+	s.res.Case(map[string]interface{}{"ops": s.w.Desc}, s.closedTerm, true)
+	s.w.Detach()
 }
 
 // ---------------------------------------------------------------- C04
@@ -678,6 +732,58 @@ func hostileTour(res *core.Result, r *core.RNG) (*sim, error) {
 			}
 		}
 	}
+	// a statistics request for the week being rotated out arrives while the rotation is writing that week
+	{
+		sn0 := w.S.VerifSnapshot()
+		w.SetNow(sn0.Offset + 3300)
+		resp := make(chan srv.HTTPResult, 1)
+		fired := false
+		srv.SetHook("crash.point", func() {
+			if fired {
+				return
+			}
+			fired = true
+			go func() {
+				resp <- w.Raw("GET", fmt.Sprintf("/api/v1/all-device-stats?timeslot_offset=%d", sn0.Offset), nil)
+			}()
+			time.Sleep(40 * time.Millisecond)
+		})
+		tickDone := make(chan struct{})
+		go func() { s.rotateTick(); close(tickDone) }()
+		select {
+		case <-tickDone:
+		case <-time.After(8 * time.Second):
+			srv.SetHook("crash.point", nil)
+			res.Count("stats.during-rotation")
+			s.fail(fmt.Sprintf("a statistics request for week %d arriving while the rotation writes that week wedges the server: the rotation check never completes (the server lock stays held)", sn0.Offset), "c12-stats-during-rotation")
+			s.abandon()
+			return s, nil
+		}
+		srv.SetHook("crash.point", nil)
+		if fired {
+			res.Count("stats.during-rotation")
+			select {
+			case rr := <-resp:
+				if rr.Panicked || rr.Err != nil {
+					s.fail(fmt.Sprintf("a statistics request for week %d arriving while the rotation writes that week makes the handler panic (the server lock stays held)", sn0.Offset), "c12-stats-during-rotation")
+				}
+			case <-time.After(4 * time.Second):
+				s.fail("a statistics request arriving during a week rotation is never answered", "c12-stats-during-rotation")
+			}
+			pr := make(chan bool, 1)
+			go func() { pr <- w.Raw("GET", "/api/v1/equipment", nil).Status == 200 }()
+			select {
+			case ok := <-pr:
+				if !ok {
+					s.fail("the server does not answer after a statistics request met a week rotation", "c12-liveness")
+				}
+			case <-time.After(4 * time.Second):
+				s.fail("the server hangs after a statistics request met a week rotation (the lock is never released)", "c12-stats-during-rotation")
+				s.abandon()
+				return s, nil
+			}
+		}
+	}
 	// an authorized peer server that is down: forwarding must not panic (D5)
 	peer := srv.DetKey(r)
 	as := server.AuthorizedServer{PublicKey: peer.Pub, Location: "127.0.0.1", HttpPort: 1, TcpPort: 1, UdpPort: 1}
@@ -690,6 +796,73 @@ func hostileTour(res *core.Result, r *core.RNG) (*sim, error) {
 	w.UseHTTP = true
 	if ob := s.authorize(s.mkAuth(s.newDevice(1000), s.a.GCA), "new-with-peer-down"); ob == "ObsPanic" {
 		s.fail("authorizing equipment while an authorized peer server is down panics the handler", "panic-http:peer-down-equipment")
+	}
+	// an authorized peer that accepts connections and never answers: the handler that forwards to it may
+	// wait, but nobody else does -- the server list and the TCP sync keep answering meanwhile
+	{
+		ln, lerr := net.Listen("tcp", "127.0.0.1:0")
+		if lerr == nil {
+			var held []net.Conn
+			var hmu sync.Mutex
+			go func() {
+				for {
+					c, err := ln.Accept()
+					if err != nil {
+						return
+					}
+					hmu.Lock()
+					held = append(held, c)
+					hmu.Unlock()
+				}
+			}()
+			sp := srv.DetKey(r)
+			sas := server.AuthorizedServer{PublicKey: sp.Pub, Location: "127.0.0.1", HttpPort: uint16(ln.Addr().(*net.TCPAddr).Port), TcpPort: 1, UdpPort: 1}
+			sas.GCAAuthorization = glow.Sign(sas.SigningBytes(), s.a.GCA.Priv)
+			sj, _ := json.Marshal(sas)
+			ann := make(chan struct{})
+			go func() { w.Raw("POST", "/api/v1/authorized-servers", sj); close(ann) }()
+			time.Sleep(50 * time.Millisecond)
+			authDone := make(chan string, 1)
+			nd := s.newDevice(1000)
+			go func() { authDone <- s.authorize(s.mkAuth(nd, s.a.GCA), "new-with-peer-stalled") }()
+			time.Sleep(150 * time.Millisecond)
+			res.Count("peer.stalled")
+			pr := make(chan bool, 1)
+			go func() {
+				ok := w.Raw("GET", "/api/v1/authorized-servers", nil).Status == 200
+				found, _, _, _, _, err := w.Sync(d0.ID, false)
+				pr <- ok && err == nil && found
+			}()
+			alive := false
+			select {
+			case alive = <-pr:
+			case <-time.After(4 * time.Second):
+			}
+			// release the peer: its connections are closed, the forwarding calls fail and return
+			ln.Close()
+			hmu.Lock()
+			for _, c := range held {
+				c.Close()
+			}
+			hmu.Unlock()
+			select {
+			case <-authDone:
+			case <-time.After(5 * time.Second):
+			}
+			select {
+			case <-ann:
+			case <-time.After(5 * time.Second):
+			}
+			if !alive {
+				s.fail("while an authorized peer accepts connections but never answers and a new device is being announced to it, GET /api/v1/authorized-servers and the TCP sync are not answered any more (a lock is held across the call to the peer)", "c12-wedged-by-stalled-peer")
+			}
+			// the stalled peer is banned so that later operations do not wait for it
+			sb := sas
+			sb.Banned = true
+			sb.GCAAuthorization = glow.Sign(sb.SigningBytes(), s.a.GCA.Priv)
+			sbj, _ := json.Marshal(sb)
+			w.Raw("POST", "/api/v1/authorized-servers", sbj)
+		}
 	}
 	// ban that server, then announce it again (e.g. a peer that missed the ban re-forwards the old record):
 	// every endpoint that takes the server-list lock must keep answering
@@ -711,9 +884,7 @@ func hostileTour(res *core.Result, r *core.RNG) (*sim, error) {
 	case <-time.After(4 * time.Second):
 		s.fail("GET /api/v1/authorized-servers is no longer answered after a banned server was announced again (a lock is held forever)", "c12-wedged-serverlist")
 		s.alive = false
-		s.closedTerm = w.CoqCase()
-		s.res.Case(map[string]interface{}{"ops": w.Desc}, s.closedTerm, true)
-		go w.Close() // cannot finish: the stuck handlers keep the thread group busy
+		s.abandon() // Close cannot finish: the stuck handlers keep the thread group busy
 		return s, nil
 	}
 	if found, _, _, _, _, err := w.Sync(d0.ID, false); err != nil || !found {
